@@ -181,6 +181,13 @@ def gen_history(rng, cfg, n):
                 ev.append(m(0x90 | c2, note, rng.choice([1, 64, 127])))
                 if (note, c2) not in ext_on:
                     ext_on.append((note, c2))
+            elif q < 0.94:
+                # a release of a note that is NOT sounding (a duplicate Note Off, a sender that releases every note on stop, a note
+                # pressed before HIDI started): it clears nothing, and everything that is sounding stays highlighted
+                if (note, c2) in ext_on:
+                    note = (note + 1) % 128
+                if (note, c2) not in ext_on:
+                    ev.append(rng.choice([m(0x80 | c2, note, 0), m(0x90 | c2, note, 0), m(0x80 | c2, note, 64)]))
             else:
                 ev.append(rng.choice([m(0xB0 | c2, 123, 0), m(0xF8), m(0xA0 | c2, note, 50), m(0xE0 | c2, 0, 64), m(0xC0 | c2, 5),
                                       m(0xFE), m()]))
@@ -237,6 +244,12 @@ def corpus(rng):
     ev = [m(0x90, 60, 100), m(0x93, 62, 100), m(0x90, 60, 0), m(0x93, 62, 0), m(0x90, 61, 1), m(0x80, 61, 0),
           m(0x95, 64, 90), m(0x90, 64, 90)] + tap(59) + [m(0x90, 72, 5), m(0x90, 72, 0)]
     cases.append({"cfg": full, "abs": [], "events": ev, "leds": allnames, "tag": "corpus-D18"})
+    # stray releases: a Note Off / velocity-0 Note On for a pitch that is not sounding (also twice), then ordinary releases of all
+    # sounding notes but one: the one left stays highlighted
+    ev = [m(0x90, 60, 100), m(0x90, 62, 100), m(0x80, 64, 0), m(0x80, 62, 0), m(0x90, 61, 0), m(0x93, 64, 80), m(0x93, 72, 80), m(0x83, 61, 0),
+          m(0x83, 61, 0), m(0x93, 62, 0), m(0x83, 72, 0), m(0x90, 60, 0), m(0x93, 64, 0), m(0x80, 60, 0), m(0x90, 61, 70), m(0x80, 61, 0), m(0x80, 61, 0),
+          m(0x90, 62, 70)]
+    cases.append({"cfg": full, "abs": [], "events": ev, "leds": allnames, "tag": "corpus-stray-release"})
     # held keys, transposition, mapping walk into "Control", channel walk to both ends
     ev = [k(16, 1), k(60, 1), k(60, 0), k(17, 1), k(16, 0)] + tap(61) * 2 + tap(62) * 3 + [k(18, 1)] + tap(64) + [k(18, 0), k(17, 0)] \
         + tap(65) + tap(67) * 16 + tap(66) * 16 + tap(68) + [k(59, 1), k(59, 0)]
